@@ -234,6 +234,17 @@ video_filter_configure(struct video_filter_s* self,
 enum DeviceStatusCode
 video_filter_start(struct video_filter_s* self)
 {
+    // Frames of an earlier acquisition that the filter thread did not get to
+    // (it flushes its input only once when it stops) must not be averaged
+    // into this one.
+    if (self->reader.id) {
+        size_t nbytes;
+        do {
+            struct slice slice = channel_read_map(&self->in, &self->reader);
+            nbytes = slice_size_bytes(&slice);
+            channel_read_unmap(&self->in, &self->reader, nbytes);
+        } while (nbytes);
+    }
     self->is_stopping = 0;
     self->is_running = 1;
     CHECK(
